@@ -99,6 +99,23 @@ Definition T := gen_idtable.
 Lemma nth_error_map_some {A B} (f : A -> B) l i y : nth_error (map f l) i = Some y -> exists x, nth_error l i = Some x /\ f x = y.
 Proof. rewrite nth_error_map. destruct (nth_error l i); cbn; intros H; inversion H; eauto. Qed.
 
+Definition sprite_target (decls : list sprite_src) (tbl : list Z) (n : nat) (a : Z) : Prop :=
+  (exists i s, nth_error decls i = Some s /\ ss_name s = n) /\
+  (forall i s, nth_error decls i = Some s -> ss_name s = n -> nth_error tbl i = Some a).
+Definition script_target (names : list nat) (n : nat) (a : Z) : Prop :=
+  exists i, nth_error names i = Some n /\ a = u32 (Z.of_nat i) /\ forall i', nth_error names i' = Some n -> i' = i.
+Definition is_sprite (decls : list sprite_src) (n : nat) : Prop := In n (map ss_name decls).
+Definition is_script (names : list nat) (n : nat) : Prop := In n names.
+
+(* what a use of a name must compile to, given the written sprite table and the scripts in file order *)
+Definition use_ok (decls : list sprite_src) (names : list nat) (tbl : list Z) (u : use_src) (a : Z) : Prop :=
+  match u with
+  | XSprite n => (is_sprite decls n -> sprite_target decls tbl n a) /\ (~ is_sprite decls n -> script_target names n a)
+  | XScript n => (is_script names n -> script_target names n a) /\ (~ is_script names n -> sprite_target decls tbl n a)
+  | XPlain n => ~ (is_sprite decls n /\ is_script names n) /\
+                (is_sprite decls n -> sprite_target decls tbl n a) /\ (is_script names n -> script_target names n a)
+  end.
+
 (* the expression-level statement of C20 for ANM *)
 Theorem anm_src_name_value_is_table_value libm fuel inp tbl nums args :
   NoDup (map fst (as_consts inp)) ->
@@ -106,13 +123,8 @@ Theorem anm_src_name_value_is_table_value libm fuel inp tbl nums args :
   let decls := concat (as_entries inp) in
   let names := map sc_name (as_scripts inp) in
   length tbl = length decls /\
-  (forall j n, nth_error (as_uses inp) j = Some (USprite n) ->
-     exists a, nth_error args j = Some a /\
-       (exists i s, nth_error decls i = Some s /\ ss_name s = n) /\
-       (forall i s, nth_error decls i = Some s -> ss_name s = n -> nth_error tbl i = Some a)) /\
-  (forall j n, nth_error (as_uses inp) j = Some (UScript n) ->
-     exists i, nth_error names i = Some n /\ nth_error args j = Some (u32 (Z.of_nat i)) /\
-               forall i', nth_error names i' = Some n -> i' = i).
+  forall j u, nth_error (as_uses inp) j = Some u ->
+    exists a, nth_error args j = Some a /\ use_ok decls names tbl u a.
 Proof.
   intros Hnd H decls names. unfold compile_anm_src in H. fold decls names in H.
   destruct (script_numbers (Some 0) (as_scripts inp)) as [nm| | |] eqn:Sn; try discriminate. cbn [obind] in H.
@@ -125,7 +137,7 @@ Proof.
   cbn [obind] in H.
   destruct (const_ids_src gen_optable libm fuel (as_consts inp) 0 (ELitI 0) 0 decls) as [consts| | |] eqn:C; try discriminate.
   cbn [obind] in H.
-  match type of H with (do args <- omap ?f ?l; _) = _ => destruct (omap f l) as [args0| | |] eqn:A; try discriminate end.
+  destruct (omap (resolve_use consts names) (as_uses inp)) as [args0| | |] eqn:A; try discriminate.
   cbn [obind] in H. destruct (consistent consts) eqn:Cs; [|discriminate]. cbn [negb] in H.
   destruct (written_ids_src gen_optable libm cache (it_writer_wraps T) 1 0 decls) as [w| | |] eqn:W; try discriminate.
   cbn [obind] in H. inversion H; subst tbl nums args. clear H.
@@ -133,22 +145,29 @@ Proof.
   assert (R0 : base_rel libm fuel (as_consts inp) (ELitI 0) 0).
   { intros k v Hv. eapply (two_evaluators_agree libm fuel (as_consts inp) cache Hnd Ec (ELitI 0) 0 k v); auto. }
   pose proof (const_src_refines libm fuel (as_consts inp) cache Hnd Ec 0 decls (ELitI 0) 0 0 consts R0 Hex C) as C'.
-  (* the value-level compile of Model/Ids.v on the translated declarations gives the same result *)
-  assert (V : compile_anm T {| ai_entries := map (map (to_decl libm cache)) (as_entries inp); ai_scripts := names; ai_uses := as_uses inp |}
-              = Ok (w, map u32 args0)).
-  { unfold compile_anm. cbn [ai_entries ai_scripts ai_uses]. rewrite D.
-    change (it_const_restart T && it_writer_carry T)%bool with true. cbn [negb].
-    change (getz (it_const_base0 T)) with (Ok 0 : outcome Z). change (getz (it_const_k0 T)) with (Ok 0 : outcome Z).
-    change (getz (it_writer_next0 T)) with (Ok 0 : outcome Z). change (getz (it_writer_step T)) with (Ok 1 : outcome Z).
-    change (it_const_op T) with SeqAdd. change (it_script_const T) with PosIndex. cbn [obind].
-    rewrite <- concat_map. fold decls. rewrite C'. cbn [obind]. rewrite A. cbn [obind]. rewrite Cs. cbn [negb].
-    rewrite W'. reflexivity. }
-  destruct (anm_name_value_is_table_value _ _ _ V) as (L & S1 & S2). cbn [ai_entries ai_scripts ai_uses] in *.
-  rewrite <- concat_map in L, S1. fold decls in L, S1. rewrite map_length in L.
-  split; [exact L|]. split.
-  - intros j n Hu. destruct (S1 j n Hu) as (a & Ha & (i & d & Hd & Hn) & Hall).
-    exists a. split; auto. split.
-    + apply nth_error_map_some in Hd. destruct Hd as (s & Hs & <-). exists i, s. auto.
-    + intros i' s Hs Hn'. apply (Hall i' (to_decl libm cache s)); [now rewrite nth_error_map, Hs|exact Hn'].
-  - exact S2.
+  destruct (sprite_lookup_is_table_value _ _ _ _ C' W' Cs) as (Nm & L & S).
+  rewrite map_length in L. rewrite map_map in Nm. cbn [sd_name to_decl] in Nm.
+  pose proof (has_dup_NoDup _ D) as ND.
+  (* the four facts about one name *)
+  assert (L1 : forall n v, lookup_const n consts = Some v -> sprite_target decls w n (u32 v) /\ is_sprite decls n).
+  { intros n v Hl. destruct (S n v Hl) as ((i & d & Hd & Hn) & Hall).
+    apply nth_error_map_some in Hd. destruct Hd as (s & Hs & <-). cbn [sd_name to_decl] in Hn. split.
+    - split; [exists i, s; auto|]. intros i' s' Hs' Hn'. apply (Hall i' (to_decl libm cache s')); [now rewrite nth_error_map, Hs'|exact Hn'].
+    - unfold is_sprite. rewrite <- Hn. apply in_map. eapply nth_error_In; eauto. }
+  assert (L2 : forall n, lookup_const n consts = None -> ~ is_sprite decls n).
+  { intros n Hl. unfold is_sprite. change (map ss_name decls) with (map (fun x : sprite_src => ss_name x) decls). rewrite <- Nm. now apply lookup_const_none. }
+  assert (L3 : forall n i, index_of n names = Some i -> script_target names n (u32 (Z.of_nat i)) /\ is_script names n).
+  { intros n i Hi. pose proof (index_of_nth _ _ _ Hi) as Ni. split.
+    - exists i. repeat split; auto. intros i' Hi'.
+      eapply (proj1 (NoDup_nth_error _) ND); [apply nth_error_Some; congruence|congruence].
+    - eapply nth_error_In; eauto. }
+  assert (L4 : forall n, index_of n names = None -> ~ is_script names n) by (intros n; apply index_of_none).
+  split; [exact L|].
+  intros j u Hu. destruct (omap_nth _ _ _ _ _ A Hu) as (y & Fy & Ny).
+  exists (u32 y). split; [now rewrite nth_error_map, Ny|].
+  unfold resolve_use in Fy. destruct u as [n|n|n]; cbn [use_ok];
+    destruct (lookup_const n consts) as [v|] eqn:El; destruct (index_of n names) as [i|] eqn:Ei;
+    try discriminate; inversion Fy; subst y;
+    try (destruct (L1 _ _ El) as [T1 I1]); try (pose proof (L2 _ El) as N1);
+    try (destruct (L3 _ _ Ei) as [T2 I2]); try (pose proof (L4 _ Ei) as N2); tauto.
 Qed.
